@@ -2131,10 +2131,17 @@ func (*ValueMap).Range
     invariant vmWFInj(m)
     invariant forallkey k: vmHas(m, k) == old(vmHas(m, k)) && (vmHas(m, k) ==> vmGet(m, k) == old(vmGet(m, k)))
 
+// ToJSON: the function handed to Range writes exactly one "key":value member for every pair it is given, or stops
+// with an error — no pair is skipped (C09).  Range (above) hands it every live pair once.
 func (*ValueMap).ToJSON
   props C12 C09
   holds vmWF(m)
   ensures forallkey k: vmHas(m, k) == old(vmHas(m, k)) && (vmHas(m, k) ==> vmGet(m, k) == old(vmGet(m, k)))
+  closure lit1
+    requires value != nil
+    ensures [C09] result ==> err == nil
+    ensures [C09] result ==> len(lst) == old(len(lst)) + 1
+    ensures [C09] !result ==> err != nil
 
 func (*ValueMap).UnmarshalJSON
   props C12 C09 C10
